@@ -18,16 +18,19 @@
     * `srcCloud nL nW P p0 inf l wn` = entry `[l, wn]` of the regenerated `SimpleCloudsContribution.prepare_each`, `inf`
       standing for `np.inf`.
 
-  Not restated (no tie)
-    * `cloud_opaque_below`, `cloud_above_untouched`, `cloud_depth_ge`: they speak of `cloudyTrans` / `cloudyDepth`, the
-      transmittance and depth of `path_integral` run with an INFINITE opacity (`Ext.inf`, `exp(-inf) = 0`).  Over ℝ the
-      regenerated `path_integral` has no infinite value to be run with (`np.inf` is the parameter `inf` of
-      `clouds_prepare_each`), so there is no regenerated expression equal to `cloudyTrans`.  What the tie does cover of
-      these theorems — which entries of the cloud's opacity are `np.inf` and which are 0, at all wavenumbers, the case
-      split their proofs rest on — is stated about the regenerated `prepare_each` in `src_cloud_sigma_below` /
-      `src_cloud_sigma_above` (composition of the tie with the definition of `cloudSigma`; not restatements).  The tie of
-      `SimpleCloudsContribution.contribute` (`src_clouds_contribute`) is to `Transmission.addContrib`, about which
-      `Props/C19.lean` has no theorem.
+  The cloud deck (`cloud_opaque_below`, `cloud_above_untouched`, `cloud_depth_ge`) is restated at the EXTENDED CARRIER `XR`
+  (Proofs/C19Ext.lean: a real, `+inf`, `-inf` or `nan`, with numpy's rules for the special values), at which `np.inf` is a
+  value and the regenerated code can be run with it: `cloudyRun newMethod rp rs n nwn total zb z dz dens P p0 rest
+  planetPaths` is the regenerated `TransmissionModel.path_integral` — the loop over the layers, the loop over the
+  contribution list with its `tau[layer].min() > 10` break, the regenerated `contribute` methods, chord lengths and
+  `compute_absorption` (`np.exp(-tau)`) — on the contribution list `[cloud deck] ++ rest`, the cloud's `sigma_xsec` being
+  what the regenerated `SimpleCloudsContribution.prepare_each` computes with `np.inf := pinf`; every other input is finite.
+  `Props/C19Src.lean` (`src_cloudy_run_old` / `_new`) proves that this run returns `fin` of the model's `cloudyTrans` /
+  `cloudyDepth` (the generic tie of `path_integral` instantiated at `XR`, then `fin` commutes with the model functions).
+  With the new path method the 3-D geometry is a parameter and the hypothesis of `src_path_integral_new` (it returns the
+  chords `chordNew`) stays visible as `NewPaths`.
+
+  Not restated (no tie): nothing of Props/C19.lean.
 -/
 import Props.C19
 import Props.C19Src
@@ -35,6 +38,88 @@ set_option linter.unusedSectionVars false
 
 namespace Taurex.C19SrcProps
 open Taurex.Transmission Taurex.Haze Taurex.C19 Taurex.C19Src
+open Taurex.C19Ext Taurex.C19Ext.XR
+open Finset
+
+/-! ### optically thick cloud deck: the regenerated run at the extended carrier `XR` -/
+
+section cloudrun
+variable (newMethod : Bool) (rp rs : ℝ) (n nwn total : ℕ) (zb z dz dens P : ℕ → ℝ) (p0 : ℝ) (rest : List (Contrib ℝ))
+  (planetPaths : (ℕ → XR) → (ℕ → ℕ → XR) → (ℕ → ℕ → XR) → List (ℕ → XR))
+
+/-- the hypothesis of the tie for `new_path_method=True`: the 3-D geometry (`planet.compute_path_length`, a parameter of
+    the regenerated `path_integral`) returns, for the lines of sight the code hands to it, the chords `chordNew` -/
+def NewPaths : Prop :=
+  ∀ l < n, ∀ k < n - l,
+    (planetPaths (lift zb)
+        (rows (fun l => (Geometry.parallelVector (fin rp) (lift z l + lift dz l / 2) (Geometry.arrMax n (lift zb))).1))
+        (rows (fun l => (Geometry.parallelVector (fin rp) (lift z l + lift dz l / 2) (Geometry.arrMax n (lift zb))).2))).getD
+          l (fun _ => 0) k
+      = chordNew (fin rp) (lift zb) (lift z) (lift dz) l k
+
+/-- the regenerated run without the cloud deck (contribution list `rest`), at `XR` -/
+noncomputable def clearRun : (ℕ → XR) × (ℕ → ℕ → XR) :=
+  Gen.SrcC19.path_integral (α := XR) nwn (rest.map liftC) (dispatch nwn total n) (lift dz) (lift dens) n newMethod
+    planetPaths (fin rp) (fin rs) (lift zb) (lift z)
+
+/-- the regenerated cloudy run returns the model's `cloudyTrans` / `cloudyDepth` (both path methods) -/
+theorem cloudyRun_eq (ht : 0 < total) (hnew : newMethod = true → NewPaths rp n zb z dz planetPaths) :
+    (∀ l < n, ∀ wn < nwn, (cloudyRun newMethod rp rs n nwn total zb z dz dens P p0 rest planetPaths).2 l wn
+        = fin (cloudyTrans newMethod rp n nwn zb z dz dens P p0 rest l wn)) ∧
+    (∀ wn < nwn, (cloudyRun newMethod rp rs n nwn total zb z dz dens P p0 rest planetPaths).1 wn
+        = fin (cloudyDepth newMethod rp rs n nwn zb z dz dens P p0 rest wn)) := by
+  cases newMethod
+  · exact src_cloudy_run_old rp rs n nwn total ht zb z dz dens P p0 rest planetPaths
+  · exact src_cloudy_run_new rp rs n nwn total ht zb z dz dens P p0 rest planetPaths (hnew rfl)
+
+theorem clearRun_eq (ht : 0 < total) (hnew : newMethod = true → NewPaths rp n zb z dz planetPaths) :
+    ∀ l < n, ∀ wn < nwn, (clearRun newMethod rp rs n nwn total zb z dz dens rest planetPaths).2 l wn
+      = fin (modelTrans true newMethod rp n nwn zb z dz dens rest l wn) := by
+  cases newMethod
+  · exact src_clear_run_old rp rs n nwn total ht zb z dz dens rest planetPaths
+  · exact src_clear_run_new rp rs n nwn total ht zb z dz dens rest planetPaths (hnew rfl)
+
+/-- **cloud_opaque_below**, about the regenerated run at `XR`: every tangent layer at or below the cloud top
+    (`P_l ≥ p0`) is opaque at all wavenumbers — the returned `exp(-tau)[l, wn]` is `0` (`tau = 0 + np.inf`, the loop
+    breaks, `exp(-np.inf) = 0`) -/
+theorem src_cloud_opaque_below (ht : 0 < total) (hnew : newMethod = true → NewPaths rp n zb z dz planetPaths)
+    (l wn : ℕ) (hl : l < n) (hwn : wn < nwn) (h : p0 ≤ P l) :
+    (cloudyRun newMethod rp rs n nwn total zb z dz dens P p0 rest planetPaths).2 l wn = fin 0 := by
+  rw [(cloudyRun_eq newMethod rp rs n nwn total zb z dz dens P p0 rest planetPaths ht hnew).1 l hl wn hwn,
+    cloud_opaque_below newMethod rp n nwn zb z dz dens P p0 rest l wn h]
+
+/-- **cloud_above_untouched**, about the regenerated run at `XR`: a layer above the cloud top gets exactly the
+    transmittance the regenerated run WITHOUT the cloud deck returns for it (the model's `modelTrans`, finite) -/
+theorem src_cloud_above_untouched (ht : 0 < total) (hnew : newMethod = true → NewPaths rp n zb z dz planetPaths)
+    (l wn : ℕ) (hl : l < n) (hwn : wn < nwn) (h : P l < p0) :
+    (cloudyRun newMethod rp rs n nwn total zb z dz dens P p0 rest planetPaths).2 l wn
+      = (clearRun newMethod rp rs n nwn total zb z dz dens rest planetPaths).2 l wn ∧
+    (cloudyRun newMethod rp rs n nwn total zb z dz dens P p0 rest planetPaths).2 l wn
+      = fin (modelTrans true newMethod rp n nwn zb z dz dens rest l wn) := by
+  have e := (cloudyRun_eq newMethod rp rs n nwn total zb z dz dens P p0 rest planetPaths ht hnew).1 l hl wn hwn
+  rw [cloud_above_untouched newMethod rp n nwn zb z dz dens P p0 rest l wn h] at e
+  exact ⟨by rw [e, clearRun_eq newMethod rp rs n nwn total zb z dz dens rest planetPaths ht hnew l hl wn hwn], e⟩
+
+/-- **cloud_depth_ge**, about the regenerated run at `XR`: the returned transit depth is a finite number, at least the
+    documented integral with the cloudy layers fully opaque and at least the depth without the cloud -/
+theorem src_cloud_depth_ge (ht : 0 < total) (hnew : newMethod = true → NewPaths rp n zb z dz planetPaths)
+    (W : WellFormed newMethod rp rs n zb z dz dens rest) (wn : ℕ) (hwn : wn < nwn) :
+    ∃ d : ℝ, (cloudyRun newMethod rp rs n nwn total zb z dz dens P p0 rest planetPaths).1 wn = fin d ∧
+      (rp ^ 2 + ∑ l ∈ range n, if p0 ≤ P l then 2 * (rp + z l) * dz l else 0) / rs ^ 2 ≤ d ∧
+      modelDepth true newMethod rp rs n nwn zb z dz dens rest wn ≤ d := by
+  refine ⟨cloudyDepth newMethod rp rs n nwn zb z dz dens P p0 rest wn,
+    (cloudyRun_eq newMethod rp rs n nwn total zb z dz dens P p0 rest planetPaths ht hnew).2 wn hwn, ?_⟩
+  exact cloud_depth_ge newMethod rp rs n nwn zb z dz dens P p0 rest W wn
+
+end cloudrun
+
+/-- non-vacuity: the run of the example of `Props/C19.lean` (two layers, cloud top between them, one absorber), old path
+    method: the bottom layer is opaque -/
+example (planetPaths : (ℕ → XR) → (ℕ → ℕ → XR) → (ℕ → ℕ → XR) → List (ℕ → XR)) :
+    (cloudyRun false 1 1 2 1 1 (fun l => (l : ℝ)) (fun l => (l : ℝ)) (fun _ => 1) (fun _ => 1)
+      (fun l => if l = 0 then 100 else 1) 10 nvRest planetPaths).2 0 0 = fin 0 :=
+  src_cloud_opaque_below false 1 1 2 1 1 _ _ _ _ _ 10 nvRest planetPaths (by norm_num) (by simp) 0 0 (by norm_num)
+    (by norm_num) (by norm_num)
 
 /-! ### grey haze (FlatMie) -/
 
